@@ -268,3 +268,60 @@ func (e *Env) Shadow() {
 
 // ShadowUTXO is the set kept from the notifications (nil when Shadow was not called).
 func (e *Env) ShadowUTXO() refchain.UTXO { return e.shadow }
+
+// CatchUp mirrors what the client does after opening with DoNotRescan: blocks found in the store
+// beyond the unspent set's tip are queued towards the heaviest leaf (client/main.go do_the_blocks)
+// and each goes through HandleNetBlock like a block from the network.
+func (e *Env) CatchUp() (done []Drain) {
+	s := e.hfs()
+	end, _ := e.Ch.BlockTreeRoot.FindFarthestNode()
+	if end.Height <= e.Ch.LastBlock().Height {
+		return nil
+	}
+	last := e.Ch.LastBlock()
+	if last != end {
+		last = last.FindFirstFather(end)
+	}
+	for last != end {
+		nxt := last.FindPathTo(end)
+		if nxt == nil || nxt.BlockSize == 0 {
+			break
+		}
+		crec, trusted, _ := e.Ch.Blocks.BlockGetInternal(nxt.BlockHash, true)
+		if crec == nil || crec.Data == nil {
+			panic("No data for block #" + nxt.BlockHash.String())
+		}
+		bl, er := btc.NewBlock(crec.Data)
+		if er != nil {
+			break
+		}
+		bl.Height = nxt.Height
+		e.Ch.ApplyBlockFlags(bl)
+		if er = bl.BuildTxList(); er != nil {
+			break
+		}
+		bl.Trusted.Store(trusted)
+		s.received[nxt.BlockHash.Hash] = true
+		ent := &hfEntry{bl: bl, node: nxt}
+		switch {
+		case s.parentDiscarded(nxt):
+			done = append(done, Drain{nxt.BlockHash.Hash, "refused: accept: parent discarded"})
+		case !e.Ch.HasAllParents(nxt):
+			s.cached = append(s.cached, ent)
+			done = append(done, Drain{nxt.BlockHash.Hash, "cached"})
+		default:
+			done = append(done, Drain{nxt.BlockHash.Hash, e.localAccept(ent)})
+			for {
+				r, ok := e.retryCached()
+				if r != nil {
+					done = append(done, *r)
+				}
+				if !ok {
+					break
+				}
+			}
+		}
+		last = nxt
+	}
+	return
+}
